@@ -159,6 +159,12 @@ class C17(CheckBase):
                 else:
                     v = dd.gen_volume(rng, 'ABCDEFGH'[i], total, 0, 31, origin=starts[i] * 18, cat_at=2 * i, nfiles=rng.randint(0, 3))
                 vols.append(v)
+            if rng.chance(0.3):
+                # the Opus disc is side 1 of a two-sided image whose side 0 carries another file system: each side
+                # is a file system of its own, with its own bounds
+                s = dd.Surface('opus', tracks, 18, vols, 6, 1, rng.below(65536))
+                s0 = dd.gen_surface(rng, variant=rng.choice(['acorn', 'acorn', 'watford']), geom=(tracks, 18), img_id=6, side=0)
+                return {'kind': kind, 'image': {'ext': rng.choice(['ddd', 'sdd']), 'surfaces': [s0.to_json(), s.to_json()]}, 'target': [1, tv]}
             s = dd.Surface('opus', tracks, 18, vols, 6, 0, rng.below(65536))
             return {'kind': kind, 'image': {'ext': 'sdd', 'surfaces': [s.to_json()]}, 'target': [0, tv]}
         if kind in ('ssd1', 'ssd2', 'dsd'):
